@@ -36,7 +36,7 @@ def dispatch (toks : List String) : Option String :=
   | "addtruncq" :: mode :: rest =>
     some <|
       match Mode.ofName? mode, parseTPQ (rest.take 9), parseTrunc (rest.drop 9) with
-      | some m, some p, some t => showOTPQ (addTruncTPQ m p t)
+      | some m, some p, some t => showOTPQ (addTruncTPQ24 m p t)
       | _, _, _ => "bad-op"
   | _ => none
 
